@@ -176,7 +176,7 @@ def retry_copies(rows, quick, rng):
     """heavy copies of the constructed repetition histories: hs = the whole signing loop, hv = the verification equation,
     hg = the public key.  quick: one dstu curve of the five smallest fields (plans s0 and e0,r0,s0: every branch), the s0 plan on
     one of the next two fields, one 256-bit g12s set (plans s0 and kmax,s0,k0), bign96 - chosen by the seed; thorough: every
-    set and plan.  A line on which the library did not use the planned number of draws (or failed) always gets the loop copy:
+    set and plan, except that of the three 512-bit g12s sets only one (by the seed) gets the s = 0 loops.  A line on which the library did not use the planned number of draws (or failed) always gets the loop copy:
     only the specification may decide it."""
     out = []
     dstu_m = sorted({x["f"][0] for x in rows if x["op"] == "dstuRetry"})
@@ -184,6 +184,8 @@ def retry_copies(rows, quick, rng):
     pick_d1 = rng.choice(dstu_m[:5]) if dstu_m else None
     pick_d2 = rng.choice(dstu_m[5:7]) if len(dstu_m) > 5 else None
     pick_g = rng.choice(g256) if g256 else None
+    g512 = sorted({x["name"] for x in rows if x["op"] == "g12sRetry" and x["l"] != 256})
+    pick_g512 = rng.choice(g512) if g512 else None
     for row in rows:
         op = row["op"]
         if op not in RETRY_OPS:
@@ -197,11 +199,19 @@ def retry_copies(rows, quick, rng):
             gen = plan == "s0" and (not quick or m == pick_d1)
             cost = (m / 163.0) ** 2 * 7
         elif op == "g12sRetry":
-            loop = (not quick) or (row["name"] == pick_g and plan in ("s0", "kmax,s0,k0"))
-            # a 512-bit scalar multiplication costs TLC minutes: thorough recomputes every loop, the equation for the s0 plan only
-            ver = ("s0" in plan.split(",") and (row["l"] == 256 or plan == "s0")) if not quick else (row["name"] == pick_g and plan == "s0")
-            gen = plan == "s0" and not quick and row["l"] == 256
-            cost = 18 if row["l"] == 256 else 215
+            # a 512-bit scalar multiplication costs TLC minutes: thorough recomputes the s = 0 loops and the equation on one 512-bit
+            # set chosen by the seed (the out-of-range plan on all three); every 256-bit set completely
+            big = row["l"] != 256
+            mine = row["name"] == (pick_g512 if big else pick_g)
+            if quick:
+                loop = mine and not big and plan in ("s0", "kmax,s0,k0")
+                ver = mine and not big and plan == "s0"
+                gen = False
+            else:
+                loop = (not big) or mine or plan == "k0,kq,kmax"
+                ver = "s0" in plan.split(",") and ((not big) or (mine and plan == "s0"))
+                gen = plan == "s0" and not big
+            cost = 215 if big else 18
         else:
             loop = True
             ver = plan == "k0,kq,kmax"
